@@ -95,6 +95,20 @@ def run_item(item):
         # hashed / very large person ids (not exactly representable as float64); household ids stay small
         "huge_p_ids": ({p: 2 ** 53 + 1 + 2 * p for p in pids}, {h: h for h in hids}),
     }
+    # label 0 is a valid identifier (only -1 means "nobody"): hand it to persons other rows point to - spouses first,
+    # pensioners' spouses before others - and swap it with whoever holds it
+    targets = []
+    for col in ("p_id_ehepartner", "p_id_einstandspartner", "p_id_elternteil_1", "p_id_kindergeld_empf", "p_id_betreuungsk_träger"):
+        if col in A.columns:
+            ref = A.loc[A[col] >= 0].sort_values("rentner", ascending=False, kind="stable")[col].tolist()
+            targets += [t for t in dict.fromkeys(ref) if t not in targets][:2]
+    for t in targets[:3]:
+        pm0 = {p: p for p in pids}
+        pm0[t] = 0
+        if 0 in pm0 and t != 0:
+            pm0[0] = t
+        if t != 0:
+            maps[f"label_zero_to_{t}"] = (pm0, {h: h for h in hids})
     for name, (pm, hm) in maps.items():
         A2 = popgen.relabel(A, pm, hm)
         try:
